@@ -576,6 +576,20 @@ func (e *Engine) mergeVal(g *Term, a, b Value) (Value, bool) {
 			return nil, false
 		}
 		return e.mergeMap(g, x, y)
+	case *SockObj:
+		y, ok := b.(*SockObj)
+		if !ok || x.Kind != y.Kind || x.Closed != y.Closed || x.Index != y.Index || !valEqual(x.Local, y.Local) || !valEqual(x.Remote, y.Remote) ||
+			(x.RDl == nil) != (y.RDl == nil) || (x.WDl == nil) != (y.WDl == nil) {
+			return nil, false
+		}
+		n := *x
+		if x.RDl != nil {
+			n.RDl = e.tc.Ite(g, x.RDl, y.RDl)
+		}
+		if x.WDl != nil {
+			n.WDl = e.tc.Ite(g, x.WDl, y.WDl)
+		}
+		return &n, true
 	case *ChanObj:
 		y, ok := b.(*ChanObj)
 		if !ok || x.Closed != y.Closed || x.Cap != y.Cap || len(x.Buf) != len(y.Buf) || x.Handoff != y.Handoff {
@@ -741,4 +755,120 @@ func (e *Engine) show(v Value) string {
 		return "(" + strings.Join(p, ", ") + ")"
 	}
 	return fmt.Sprintf("%T", v)
+}
+
+// valEqual: structural identity of two values (same terms, same object references).
+func valEqual(a, b Value) bool {
+	switch x := a.(type) {
+	case nil:
+		return b == nil
+	case *Term:
+		y, ok := b.(*Term)
+		return ok && x == y
+	case StrV:
+		y, ok := b.(StrV)
+		if !ok || x.Opaque != y.Opaque || len(x.B) != len(y.B) || x.Note != y.Note || !valEqual(x.Ref, y.Ref) {
+			return false
+		}
+		for i := range x.B {
+			if x.B[i] != y.B[i] {
+				return false
+			}
+		}
+		return true
+	case PtrV:
+		y, ok := b.(PtrV)
+		if !ok || x.Obj != y.Obj || len(x.Path) != len(y.Path) || x.NilIf != y.NilIf {
+			return false
+		}
+		for i := range x.Path {
+			if x.Path[i] != y.Path[i] {
+				return false
+			}
+		}
+		return true
+	case SliceV:
+		y, ok := b.(SliceV)
+		if !ok || x.Obj != y.Obj || x.Off != y.Off || x.Len != y.Len || x.Cap != y.Cap || x.Nil != y.Nil || len(x.Path) != len(y.Path) {
+			return false
+		}
+		for i := range x.Path {
+			if x.Path[i] != y.Path[i] {
+				return false
+			}
+		}
+		return true
+	case MapV:
+		y, ok := b.(MapV)
+		return ok && x.Obj == y.Obj
+	case ChanV:
+		y, ok := b.(ChanV)
+		return ok && x.Obj == y.Obj
+	case StructV:
+		y, ok := b.(StructV)
+		if !ok || len(x.F) != len(y.F) {
+			return false
+		}
+		for i := range x.F {
+			if !valEqual(x.F[i], y.F[i]) {
+				return false
+			}
+		}
+		return true
+	case ArrayV:
+		y, ok := b.(ArrayV)
+		if !ok || len(x.E) != len(y.E) {
+			return false
+		}
+		for i := range x.E {
+			if !valEqual(x.E[i], y.E[i]) {
+				return false
+			}
+		}
+		return true
+	case TupleV:
+		y, ok := b.(TupleV)
+		if !ok || len(x) != len(y) {
+			return false
+		}
+		for i := range x {
+			if !valEqual(x[i], y[i]) {
+				return false
+			}
+		}
+		return true
+	case IfaceV:
+		y, ok := b.(IfaceV)
+		if !ok || (x.T == nil) != (y.T == nil) {
+			return false
+		}
+		if x.T == nil {
+			return true
+		}
+		return types.Identical(x.T, y.T) && valEqual(x.V, y.V)
+	case FuncV:
+		y, ok := b.(FuncV)
+		if !ok || x.Fn != y.Fn || x.Builtin != y.Builtin || x.Native != y.Native || len(x.Free) != len(y.Free) {
+			return false
+		}
+		for i := range x.Free {
+			if !valEqual(x.Free[i], y.Free[i]) {
+				return false
+			}
+		}
+		return true
+	case IterV:
+		y, ok := b.(IterV)
+		return ok && x.IsMap == y.IsMap && x.Map == y.Map && x.Pos == y.Pos && x.Str == y.Str
+	case ErrV:
+		y, ok := b.(ErrV)
+		return ok && x.ID == y.ID
+	case LocV:
+		y, ok := b.(LocV)
+		return ok && x == y
+	case TimeV:
+		y, ok := b.(TimeV)
+		return ok && x == y
+	}
+	return false
 }
